@@ -12,15 +12,20 @@
     - the machine alternates between the nodes "start" and "flip";
     - mode idle: the action changes nothing and the machine returns to the
       node it was at (a walk that ends in the state it started from);
-    - mode deaf: the pattern matches no generated message (no walk). *)
+    - mode deaf: the pattern matches no generated message (no walk).
+
+    [RNamed] is no recorder: it stands for a specification source that
+    carries only a name, [{"name": label}] - neither "inline" nor "url" -
+    which [ResolveSpecSource] resolves to nothing ([rresolves] = false): a
+    machine given such a source has no specification. *)
 From Sheens Require Export Model.SioCrew.
 
-Inductive rmode : Type := RFwd | RRev | RMute | RIdle | RDeaf.
+Inductive rmode : Type := RFwd | RRev | RMute | RIdle | RDeaf | RNamed.
 Record rcfg : Type := mk_rcfg { rc_label : string; rc_mode : rmode }.
 
 Definition rmode_eqb (a b : rmode) : bool :=
   match a, b with
-  | RFwd, RFwd | RRev, RRev | RMute, RMute | RIdle, RIdle | RDeaf, RDeaf => true
+  | RFwd, RFwd | RRev, RRev | RMute, RMute | RIdle, RIdle | RDeaf, RDeaf | RNamed, RNamed => true
   | _, _ => false
   end.
 Definition rcfg_eqb (a b : rcfg) : bool :=
@@ -69,7 +74,7 @@ Definition rreact (cfg : rcfg) (m : mid) (st : mstate) (msg : json) : option mst
   | None => (None, [])                              (* not exercised: a node the specification lacks *)
   | Some n' =>
       match rc_mode cfg with
-      | RDeaf => (None, [])
+      | RDeaf | RNamed => (None, [])               (* [RNamed]: never reached, no machine has such a source *)
       | RIdle => (Some (mk_ms (ms_node st) (bremove "?m" (ms_bs st))), [])
       | _ =>
           let bs := bremove "?m" (ms_bs st) in
@@ -86,9 +91,14 @@ Definition parse_mode (s : string) : option rmode :=
   else if String.eqb s "deaf" then Some RDeaf
   else None.
 
+(** the sources [ResolveSpecSource] finds a specification for *)
+Definition rresolves (cfg : rcfg) : bool :=
+  match rc_mode cfg with RNamed => false | _ => true end.
+
 (** the "spec" member of a machine in a crew operation, in the form the
     harness hands to the model: the inline specification reduced to its
-    name (label) and doc (mode) *)
+    name (label) and doc (mode); a source with neither "inline" nor "url"
+    and a name is the name-only source *)
 Definition rdecode (j : json) : option rcfg :=
   match j with
   | JObj kvs =>
@@ -97,6 +107,11 @@ Definition rdecode (j : json) : option rcfg :=
           match assoc "name" sp, assoc "doc" sp with
           | Some (JStr l), Some (JStr d) =>
               match parse_mode d with Some md => Some (mk_rcfg l md) | None => None end
+          | _, _ => None
+          end
+      | None =>
+          match assoc "url" kvs, assoc "name" kvs with
+          | None, Some (JStr l) => Some (mk_rcfg l RNamed)
           | _, _ => None
           end
       | _ => None
@@ -109,9 +124,9 @@ Definition rdecode (j : json) : option rcfg :=
 Definition ord_id (A : Type) (l : list (mid * A)) : list (mid * A) := l.
 
 Definition rcrew := crew rcfg.
-Definition r_process_msg := process_msg rcfg rreact rdecode rcfg_eqb ord_id.
-Definition r_hstep := hstep rcfg rreact rdecode rcfg_eqb ord_id.
-Definition r_run_history := run_history rcfg rreact rdecode rcfg_eqb ord_id.
-Definition r_boot := boot rcfg ord_id.
-Definition r_set_machine := set_machine rcfg.
+Definition r_process_msg := process_msg rcfg rreact rdecode rresolves rcfg_eqb ord_id.
+Definition r_hstep := hstep rcfg rreact rdecode rresolves rcfg_eqb ord_id.
+Definition r_run_history := run_history rcfg rreact rdecode rresolves rcfg_eqb ord_id.
+Definition r_boot := boot rcfg rresolves ord_id.
+Definition r_set_machine := set_machine rcfg rresolves.
 Definition r_delete_machine := delete_machine rcfg.
